@@ -72,6 +72,7 @@ func c15CheckX(base, target any, excludeKnown bool) {
 
 // HarnessC15_maps: all pairs of maps with scalar / one-level map values.
 func HarnessC15_maps() {
+	c15Tokens()
 	if vTier() > 0 {
 		base := ndMap(2, keysAB, 0, ndScalarNN)
 		target := ndMap(2, keysAB, 0, ndScalarNN)
@@ -92,6 +93,10 @@ func HarnessC15_maps() {
 	c15Check(mk(), mk())
 }
 
+// c15Tokens: string leaves include texts that print like a number or a
+// bool, so that "5" vs 5 and "true" vs true are among the compared pairs.
+func c15Tokens() { vSetTokens("s0", "1", "true", "s3") }
+
 func c15Entry() any {
 	switch ndChoice(3) {
 	case 0:
@@ -105,6 +110,7 @@ func c15Entry() any {
 
 // HarnessC15_lists: a list under one key on both sides.
 func HarnessC15_lists() {
+	c15Tokens()
 	L := 2
 	if vTier() > 0 {
 		L = 3
@@ -126,6 +132,7 @@ func HarnessC15_lists() {
 // entries; thorough 3 / 5): every pattern of repeated, kept, dropped,
 // reordered and appended entries, duplicates of base entries included.
 func HarnessC15_longlists() {
+	c15Tokens()
 	lb, lt := 2, 4
 	if vTier() > 0 {
 		lb, lt = 3, 5
@@ -145,6 +152,7 @@ func HarnessC15_longlists() {
 
 // HarnessC15_kinds: the kind matrix at one key.
 func HarnessC15_kinds() {
+	c15Tokens()
 	gen := func() any {
 		switch ndChoice(5) {
 		case 0:
